@@ -1,9 +1,9 @@
 #!/bin/bash
 # developer aid (round 5, "sweep"): confirm up to three independent mutants delivered by one sub-agent.
-# usage: seeded_confirm_multi.sh <Cxx>      (worktree /tmp/wt/Cxx, deliverables /tmp/wt/Cxx-out: mK.diff, demo/src/bin/mK.rs, meta.json)
-# A mutant is stored as /verif/seeded/Cxx-eK/ only if the 96+2 tests pass with it, its demo fails with it and passes without it.
+# usage: seeded_confirm_multi.sh <Cxx> [round-letter, default e]     (worktree /tmp/wt/Cxx, deliverables /tmp/wt/Cxx-out: mK.diff, demo/src/bin/mK.rs, meta.json)
+# A mutant is stored as /verif/seeded/Cxx-<letter>K/ only if the 96+2 tests pass with it, its demo fails with it and passes without it.
 set -u
-p=$1; wt=/tmp/wt/$p; out=/tmp/wt/$p-out; demo=$out/demo
+p=$1; rl=${2:-e}; wt=/tmp/wt/$p; out=/tmp/wt/$p-out; demo=$out/demo
 cd "$wt" || exit 2
 git checkout -q -- . ; git status --short | grep -q . && { echo "$wt not clean"; exit 2; }
 [ -f "$demo/Cargo.lock" ] || cp /repo/Cargo.lock "$demo/" 2>/dev/null
@@ -19,7 +19,7 @@ for k in 1 2 3; do
   okt=0; echo "$t" | grep -q "96 passed; 0 failed" && okt=1
   echo "$p m$k: tests_ok=$okt demo_without=$rc0 demo_with=$rc1 :: $(tail -1 /tmp/cm_with.log | cut -c1-160)"
   if [ $okt = 1 ] && [ $rc0 = 0 ] && [ $rc1 != 0 ]; then
-    d=/verif/seeded/$p-e$k; mkdir -p "$d"
+    d=/verif/seeded/$p-$rl$k; mkdir -p "$d"
     cp /tmp/cm_patch.diff "$d/patch.diff"; cp "$demo/src/bin/m$k.rs" "$d/demo.rs"
     # demos that share helper files (src/lib.rs, include!d harness): keep them next to demo.rs
     for f in "$demo"/src/*.rs; do [ -f "$f" ] && cp "$f" "$d/demo_support_$(basename "$f")"; done
